@@ -113,6 +113,12 @@ class EventDataframeDataReader(AbstractDataframeDataReader):
             raise LeaspyDataInputError("Events must be above 0")
 
         # Check event bool good format
+        if df_event[self.event_bool_name].isna().any() or (
+            df_event[self.event_bool_name] < 0
+        ).any():
+            raise LeaspyDataInputError(
+                "Events must be stored in type int >= 0 without missing value, with 0 equal to censored event"
+            )
         if not np.array_equal(
             df_event[self.event_bool_name], df_event[self.event_bool_name].astype(int)
         ):
